@@ -646,8 +646,12 @@ class ModelSpec:
             This method is provisional and may be removed in any future major
             version.
         """
+        # The structure recorded for the original terms (if any) does not
+        # describe the differentiated terms; it is re-derived when the new spec
+        # is next materialized (transform and encoder state are kept).
         return self.update(
             formula=self.formula.differentiate(*wrt, use_sympy=use_sympy),
+            structure=None,
         )
 
     # Only include dataclass fields when pickling.
